@@ -227,7 +227,7 @@ def run_mutants(ids):
         subprocess.run(['rsync', '-a', '--exclude', '.git', BASE + '/', tree + '/'], check=True)
         subprocess.run(['patch', '-s', '-p1', '-i', os.path.join(OUT, 'all.diff')], cwd=tree, check=True)
     mdir = os.path.join(HERE, 'mutants')
-    ids = ids or sorted(x[:-5] for x in os.listdir(mdir) if x.endswith('.json') and x not in ('RESULTS.json', 'BUILD.json'))
+    ids = ids or sorted(x[:-5] for x in os.listdir(mdir) if x.endswith('.json') and x not in ('RESULTS.json', 'BUILD.json', 'RENAMED.json'))
     results = {}
     bad = 0
     for mid in ids:
